@@ -10,6 +10,7 @@ mod ixb;
 mod scen;
 mod fam_passport;
 mod fam_rd;
+mod fam_directed;
 
 fn arg<T: std::str::FromStr>(a: &[String], i: usize, d: T) -> T { a.get(i).and_then(|s| s.parse().ok()).unwrap_or(d) }
 
@@ -23,6 +24,7 @@ fn main() {
         Some("direct-wire") => direct_wire::main(arg(&a, 2, 0), arg(&a, 3, 200), arg(&a, 4, 0), arg(&a, 5, 1), arg(&a, 6, -1)),
         Some("bank-passport") => scen::run_family(arg(&a, 2, 0), arg(&a, 3, 16), arg(&a, 4, 60), fam_passport::scenario),
         Some("bank-rd") => scen::run_family(arg(&a, 2, 0), arg(&a, 3, 16), arg(&a, 4, 120), fam_rd::scenario),
+        Some("bank-directed") => scen::run_family(arg(&a, 2, 0), arg(&a, 3, 4), arg(&a, 4, 0), fam_directed::scenario),
         Some("dump-constants") => constants::main(),
         _ => { eprintln!("usage: dzh <family> ..."); std::process::exit(2); }
     }
